@@ -531,7 +531,7 @@ def _innermost_repo_func(tb):
 
 # ---------------------------------------------------------------- kernel
 class Pipe:
-    __slots__ = ("buf", "cap", "r", "w", "total", "pid")
+    __slots__ = ("buf", "cap", "r", "w", "total", "pid", "watch")
 
     def __init__(self, cap, pid):
         self.buf = bytearray()
@@ -540,6 +540,7 @@ class Pipe:
         self.w = 0
         self.total = 0
         self.pid = pid
+        self.watch = False
 
 
 class OpenFile:
@@ -609,6 +610,7 @@ class Proc:
         self.info = {}
         self.birth = 0.0
         self.death = None
+        self.used_fds = set()
 
     def task_done(self, t):
         pass
@@ -636,6 +638,7 @@ class Kernel:
         self.pipe_cap = pipe_cap
         self.fault_counts = collections.Counter()
         self.probes = collections.Counter()
+        self.pipe_log = []
 
     def digest(self):
         h = 0
@@ -677,10 +680,12 @@ class Kernel:
             if not proc.alive or self.s.teardown:
                 return
             raise OSError(errno.EBADF, "Bad sim fd %r in p%d" % (fd, proc.pid))
+        proc.used_fds.add(fd)
         proc.inh.pop(fd, None)
         of.decref()
 
     def _of(self, proc, fd):
+        proc.used_fds.add(fd)
         try:
             return proc.fds[fd]
         except KeyError:
@@ -724,6 +729,8 @@ class Kernel:
             n = min(total - off, pp.cap - len(pp.buf))
             pp.buf += data[off:off + n]
             pp.total += n
+            if pp.watch:
+                self.pipe_log.append((proc.pid, data[off:off + n]))
             off += n
             if off >= total:
                 return total
